@@ -120,7 +120,12 @@ int main(int argc, char **argv) {
                 for (int i = 0; i < n; i++) {
                     bool copy = mode == 0 || (mode == 2 && (i & 1) == 0);
                     errno = 0; in_call = 1; bool r = v->getnext(v, &o, copy); in_call = 0;
-                    if (!r) { ended = 1; if (errno != ENOENT) bl += sprintf(buf + bl, "!%s", ename(errno)); if (o.data != NULL) bl += sprintf(buf + bl, "!data"); break; }
+                    if (!r) { ended = 1; if (errno != ENOENT) bl += sprintf(buf + bl, "!%s", ename(errno)); if (o.data != NULL) bl += sprintf(buf + bl, "!data");
+                        /* a caller polling once more after the end is still told the walk is over (the cursor stays where it is) */
+                        errno = 0; in_call = 1; bool r2 = v->getnext(v, &o, copy); in_call = 0;
+                        if (r2) { bl += sprintf(buf + bl, "!again"); if (copy) scribble_free(o.data, os); }
+                        else if (errno != ENOENT) bl += sprintf(buf + bl, "!%s2", ename(errno));
+                        break; }
                     if (bl + 2 * os + 2 >= sizeof buf) break;
                     if (!first) buf[bl++] = ','; first = 0;
                     if (os == 0) buf[bl++] = '-';
